@@ -78,25 +78,51 @@ def run(ctx):
 
 
 def delegation(prog, impl, tr):
+    """A manual relation next to a derived equality is accepted only when it is the derived relation of the wrapped value:
+    the type has exactly one field, `cmp`/`partial_cmp`/`eq`/`hash` makes exactly one call, that call is the same trait method,
+    and its operands are `self.<field>` and `other.<field>` reached by reference/field projection only (no function applied to
+    either side first). `partial_cmp` may instead be `Some(self.cmp(other))`."""
+    from tmpl import local_defs, operand_places
     meths = [m for m in impl['items'] if m in prog.bodies]
     if not meths:
         return False, 'no method bodies found'
+    adt = prog.adts.get(impl['self_adt'])
+    nfields = sum(len(v['fields']) for v in adt['variants']) if adt else None
     for m in meths:
         b = prog.bodies[m]
         mname = m.rsplit('::', 1)[-1]
-        rel_calls = [c for c in b.calls if re.search(r'std::cmp::(PartialEq|PartialOrd|Ord)::|std::hash::Hash::', c.fn or '')]
-        if not rel_calls:
-            # e.g. partial_cmp = Some(self.cmp(other))
-            if mname == 'partial_cmp' and any((c.fn or '').endswith('Ord::cmp') for c in b.calls):
-                continue
-            return False, f'{mname} contains no comparison call'
-        for c in rel_calls:
-            if not (c.fn or '').endswith('::' + mname) and not (mname == 'partial_cmp' and (c.fn or '').endswith('Ord::cmp')):
-                return False, f'{mname} calls {c.fn} (not the same relation)'
-        other = [c for c in b.calls if c not in rel_calls and not re.search(r'Deref::deref|Option::<.*>::Some|clone', c.name or '')]
-        if len(rel_calls) > 1:
-            return False, f'{mname} performs {len(rel_calls)} comparisons (not a pure delegation)'
-    return True, 'pure delegation to the wrapped value'
+        calls = [c for c in b.calls if not re.search(r'Option::<.*>::Some$', c.name or '')]
+        if mname == 'partial_cmp' and len(calls) == 1 and (calls[0].fn or '').endswith('Ord::cmp') \
+                and calls[0].name and calls[0].name.startswith('<' + impl['self_adt'] + ' as '):
+            continue    # Some(self.cmp(other)) on Self
+        if nfields != 1:
+            return False, f'{mname}: the type has {nfields} fields; a manual relation cannot be the derived relation of one wrapped value'
+        if len(calls) != 1:
+            return False, f'{mname} makes {len(calls)} calls ({", ".join(sorted({(c.name or c.fn or "?") for c in calls}))[:160]}); not a pure delegation'
+        c = calls[0]
+        if not re.search(r'std::cmp::(PartialEq|PartialOrd|Ord)::|std::hash::Hash::', c.fn or '') or not (c.fn or '').endswith('::' + mname):
+            return False, f'{mname} calls {c.fn} (not the same relation)'
+        want = [1, 2] if mname != 'hash' else [1]
+        for k, a in zip(want, c.args):
+            if a['k'] == 'const':
+                return False, f'{mname}: operand {k} of the comparison is a constant'
+            # walk back through plain ref/use assignments only
+            l, hops, ok = a['pl']['l'], 0, False
+            while hops < 8:
+                if l == k:
+                    ok = True
+                    break
+                defs = local_defs(b, l)
+                if len(defs) != 1 or defs[0][1] != 'assign' or defs[0][2]['rv'] not in ('use', 'ref'):
+                    break
+                srcs = operand_places(defs[0][2])
+                if len(srcs) != 1:
+                    break
+                l = srcs[0]['l']
+                hops += 1
+            if not ok:
+                return False, f'{mname}: operand {k} of the comparison is not `{"self" if k == 1 else "other"}.<field>` by projection only'
+    return True, 'pure delegation to the single wrapped value'
 
 
 def short(n):
